@@ -14,6 +14,7 @@ import ChythonModel.Proofs.C02Atoms
 import ChythonModel.Proofs.C02Fuel2
 import ChythonModel.Proofs.C02ChainSym
 import ChythonModel.Proofs.C02BondOrder
+import ChythonModel.Proofs.C02ClosureSym
 /-!
 # C02 — SMILES write then read is lossless; canonical strings never collide
 
@@ -457,6 +458,34 @@ theorem chain_bond_orders (m : Mol) (env : Env) (opts : Opts) (rs : List Round) 
   obtain ⟨r, _, s, _, hf, hs2, _⟩ := chain_symbols_parent m env opts rs order hwf h es hes e he hc
   obtain ⟨bd, hbd, hdec⟩ := formatBond_decodes hwf hb hf
   exact ⟨bd, s, hbd, hs2, hdec⟩
+
+/-- **closure_bond_symbols** (second half of the symbol part of `ReadWriteBondsFull`; no per-run hypothesis): every RING-CLOSURE
+    bond read back from the tokens of a well-formed molecule carries at its opening digit exactly `_format_bond(a, b)` and
+    at its closing digit exactly `_format_bond(b, a)` — or nothing there with `asymmetric_closures` (`visited_bond`
+    bookkeeping) — where `a`, `b` are the atoms the reader joins (the two ends of one DFS cycle). -/
+theorem closure_bond_symbols (m : Mol) (env : Env) (opts : Opts) (rs : List Round) (order : List Nat)
+    (hwf : m.WF = true) (h : smilesRounds m env opts = .ok (rs, order))
+    (es : List REdge) (hes : readToks (joinRounds rs) = .ok es) :
+    ∀ e ∈ es, e.closure = true →
+      ∃ r ∈ rs, ∃ s1, formatBond m opts r.sc e.a e.b = .ok s1 ∧ e.s1 = some s1 ∧
+        ((opts.asym = false ∧ ∃ s2, formatBond m opts r.sc e.b e.a = .ok s2 ∧ e.s2 = some s2) ∨
+         (opts.asym = true ∧ e.s2 = none)) :=
+  closure_symbols m env opts rs order hwf h es hes
+
+/-- **closure_bond_orders**: with bond symbols shown, the symbol read at the opening digit of every ring closure decodes to the
+    order of that bond in the molecule — together with `chain_bond_orders` and `read_write_constitution`: every bond of the
+    molecule comes back exactly once and with its order (orders outside 1–4 as "outside 1–4"). -/
+theorem closure_bond_orders (m : Mol) (env : Env) (opts : Opts) (rs : List Round) (order : List Nat)
+    (hwf : m.WF = true) (hb : opts.bonds = true) (h : smilesRounds m env opts = .ok (rs, order))
+    (es : List REdge) (hes : readToks (joinRounds rs) = .ok es) :
+    ∀ e ∈ es, e.closure = true → ∃ bd s, m.bond? e.a e.b = some bd ∧ e.s1 = some s ∧
+      (match decodeOrder s (opts.aromatic && hybridization m e.a == 4 && hybridization m e.b == 4) with
+       | some o => bd.order = o
+       | none => bd.order ∉ [1, 2, 3, 4]) := by
+  intro e he hc
+  obtain ⟨r, _, s1, hf, hs1, _⟩ := closure_symbols m env opts rs order hwf h es hes e he hc
+  obtain ⟨bd, hbd, hdec⟩ := formatBond_decodes hwf hb hf
+  exact ⟨bd, s1, hbd, hs1, hdec⟩
 
 /-- **text_reads_back_constitution** (the property's own formulation, constitution part: "reading the text back gives a
     molecule isomorphic to the original under the written atom order"): for every well-formed molecule without an
